@@ -14,6 +14,7 @@ type kv struct {
 }
 
 type scanEnv struct {
+	prop  string
 	ctx   *Ctx
 	lc    *LCase
 	opt   OptSet
@@ -32,7 +33,11 @@ func (e *scanEnv) viol(clause string, extra map[string]interface{}) {
 	for k, v := range extra {
 		d[k] = v
 	}
-	e.ctx.Violate(fmt.Sprintf("C04/%s/%s", clause, e.opt.String()), d)
+	p := e.prop
+	if p == "" {
+		p = "C04"
+	}
+	e.ctx.Violate(fmt.Sprintf("%s/%s/%s", p, clause, e.opt.String()), d)
 }
 
 func showKVs(s []kv, max int) []string {
